@@ -355,7 +355,7 @@ func deriveAll(dec string, ms [][]byte, pos []int) {
 func generate() {
 	nRandom, exLen := 16, 2
 	if thorough {
-		nRandom, exLen = 3000, 4
+		nRandom, exLen = 1500, 3
 	}
 
 	// ---- corpus: one representative of every recorded defect (fixed or known finding)
@@ -470,7 +470,7 @@ func generate() {
 	for _, name := range resultDecs {
 		for i, m := range resultMsgs(name) {
 			if i < 2 || thorough {
-				derive("res:"+name, m.b, upto(5))
+				derive("res:"+name, m.b, upto(4))
 			} else {
 				run("res:"+name, m.b, "valid")
 			}
